@@ -6,6 +6,7 @@ observation. The harness prints the same lines from the real library; `diff` is 
 import MRL.Model.Disk
 import MRL.Proofs.Journal
 import MRL.Model.FileName
+import MRL.Model.Panic
 
 open MRL
 
@@ -147,6 +148,7 @@ def St.sync (st : St) : St :=
   { st with disk := applyOsOps st.disk (coalesce (st.pending.reverse.filter (· != .sync))), pending := [] }
 
 def stateLines (msz : Nat) (l : Log) : List String :=
+  if accessorsPanic l.queues then ["S PANIC"] else
   let qs := sortQs l.queues
   let ql := qs.map fun (name, q) =>
     let recs := q.recs.map fun r => recS (r.pos, r.payload)
@@ -167,7 +169,12 @@ def jcheck (l : Log) (j : List JE) : Bool :=
 
 def openOn (st : St) (img : Image) (toks : List String) (failAt : Option Nat) : St × List String :=
   let policy := parsePolicy (toks.getD 1 "always:flush")
-  match recover geom img policy (parseOrder toks) failAt with
+  -- the panic-instrumented twin decides first whether the checked u64 arithmetic of the real
+  -- code would overflow during this recovery
+  match recoverP geom img policy (parseOrder toks) failAt with
+  | .error () => ({ st with log := none, disk := img, pending := [], buf := {} }, ["O PANIC"])
+  | .ok res =>
+  match res with
   | .error .io => ({ st with log := none, disk := img, pending := [], buf := {} }, ["O err:io"])
   | .error .corruption => ({ st with log := none, disk := img, pending := [], buf := {} }, ["O err:corruption"])
   | .ok r =>
